@@ -730,8 +730,28 @@ def _gen_e2e(r, tier):
     op = {"op": "good", "gen": gen, "prefix": prefix, "n": n,
           "entry": r.choice(["source", "bitstring"]),
           "seeds": [r.getrandbits(40) | 1 for _ in range(8)]}
+  ops = [op]
+  # one process lifetime may hold several suite calls: an earlier call on a
+  # short input (tests raise InsufficientDataError), an earlier call that
+  # dies of an allocation failure, or simply the same kind of call twice
+  u = r.random()
+  seeds = lambda: [r.getrandbits(40) | 1 for _ in range(8)]
+  if u < 0.20:
+    ops.insert(0, {"op": "free", "gen": r.choice(GOOD + ("xorshift128+",)),
+                   "prefix": r.choice([None, op["prefix"], "Large",
+                                       "LinearComplexity", "RandomWalk"]),
+                   "n": r.choice([64, 1000, 2048, 4096, 2**14]),
+                   "entry": r.choice(["source", "bitstring"]),
+                   "seeds": seeds()})
+  elif u < 0.35:
+    ops.insert(0, {"op": "free", "gen": op["gen"], "prefix": op["prefix"],
+                   "n": op["n"] if op["n"] <= 2**22 else 2**20,
+                   "entry": op["entry"], "seeds": seeds(),
+                   "call_fail": int(2 ** (r.random() * 10)) - 1})
+  elif u < 0.55 and op["op"] == "good" and op["n"] <= 2**22:
+    ops.insert(0, dict(op, seeds=seeds()))
   return {"engine": "C", "property": PROPERTY, "profile": "e2e",
-          "clock_seed": r.getrandbits(32), "ops": [op]}
+          "clock_seed": r.getrandbits(32), "ops": ops}
 
 
 def _subject_e2e(plan):
@@ -761,6 +781,12 @@ def _subject_e2e(plan):
 
     rts.TestStructure = Capturing
     ev = {"op": op["op"]}
+    cf = None
+    if "call_fail" in op:
+      cf = seams.CallFault()
+      cf.arm(["paranoid_crypto.lib.randomness_tests." + m for m in
+              ("random_test_suite", "nist_suite", "extended_nist_suite",
+               "lattice_suite", "util", "berlekamp_massey")], op["call_fail"])
     try:
       if op["entry"] == "source":
         ret = rts.TestSource(source, op["n"], test_prefix=op["prefix"],
@@ -773,6 +799,9 @@ def _subject_e2e(plan):
       ev["exc"] = "%s: %s" % (type(ex).__name__, str(ex)[:160])
     finally:
       rts.TestStructure = orig_ts
+      if cf is not None:
+        ev["fault_fired"] = cf.fired
+        cf.heal()
     ev["pulls"] = len(pulls)
     ev["tests"] = [{"name": t.test_name, "runs": t.runs,
                     "finished": bool(t.finished),
@@ -795,6 +824,16 @@ def judge_e2e(plan, res):
   for i, (op, ev) in enumerate(zip(plan["ops"], res["events"])):
     st["ops"][op["op"]] = st["ops"].get(op["op"], 0) + 1
     st["rounds"] += ev["pulls"]
+    if ev.get("fault_fired"):
+      st["probes"]["call_fault_fired"] = \
+          st["probes"].get("call_fault_fired", 0) + 1
+      continue      # the faulted call is not judged; the following ones are
+    if "exc" in ev and op["op"] == "free":
+      # inputs below the statement's sizes (2^16 / 2^20 bits): some tests
+      # raise a plain ValueError there; this call is only "earlier work"
+      st["probes"]["short_input_call_raised"] = \
+          st["probes"].get("short_input_call_raised", 0) + 1
+      continue
     if "exc" in ev:
       viol.append(_v("driver_raises", i, "e2e", "%s on %s raised %s" %
                      (op["entry"], op["gen"], ev["exc"])))
@@ -825,6 +864,8 @@ def judge_e2e(plan, res):
     st["trajectories"].add(repr((op["gen"], op["prefix"], op["n"], op["entry"],
                                  sorted(set(s for t in ran
                                             for s in t["state"].values())))))
+    if op["op"] == "free":
+      continue
     if op["op"] == "good":
       if ev["ret"]:
         viol.append(_v("good_generator_fails", i, op["gen"],
